@@ -109,8 +109,16 @@ func setMode(m Mode) {
 	shouldClean = m.Update == "true" || m.Update == "clean"
 }
 
+// sameProcess: while set, newProcess only sets the mode: the helpers that normally start a process per call (storeJSON, ...)
+// then make their calls in ONE simulated process, one after the other.
+var sameProcess bool
+
 // newProcess simulates the start of a fresh test process.
 func newProcess(m Mode) {
+	if sameProcess {
+		setMode(m)
+		return
+	}
 	// every package-level variable of the library gets its initial value again (generated from the sources at build time:
 	// state that a change introduces is as cold as in a real new process); the colour switch is the harness' own setting
 	nc := colors.NOCOLOR
